@@ -167,7 +167,7 @@ def expand_csr_ops(ops, regs, addr_width, data_width, garbage):
             for j in range(n):
                 g = int(gaps[j]) if j < len(gaps) else 0
                 if g > 0:
-                    idle(min(g, 4), "gap")
+                    idle(g if 200 <= g <= 400 else min(g, 4), "gap")
                 if str(j) in pokes and j > 0:
                     # a stray write to some other address between two chunks (it is ignored if
                     # that address is unmapped or not writable - the tracker decides)
